@@ -67,9 +67,9 @@ Section Inst.
 
   Definition guards : list bool :=
     let l := parse mn cl st doc in
-    [ guard_F07a mn l;
-      guard_F07b mn cl st doc;
-      guard_F07c tk l;
+    [ dedup_total mn l;      (* model bound of the de-dup search, not a finding *)
+      guard_F07f mn cl st doc;
+      true;                  (* bit 3 was F07c (fixed) *)
       guard_F07d ta pid l;
       guard_F07e tk ta tc l ].
 End Inst.
